@@ -225,8 +225,10 @@ def post_revolve(run, tool, m, out, a):
     else:
         ang = np.asarray(phi, float)
     dphi = np.diff(ang)
+    documented_negative = False
     if len(dphi) and np.all(dphi < 0) and axis == 1 and m.cell_type == "quad":
         dphi = -dphi  # the documented way to revolve about the second axis: negative angles (positively oriented cells)
+        documented_negative = True
     if len(dphi) == 0 or np.any(dphi <= 0) or np.any(dphi >= 180) or ang[-1] - ang[0] > 360 + 1e-9:
         run.skip("mesh.revolve", "angles not increasing in (0, 180) per segment")
         return
@@ -251,7 +253,8 @@ def post_revolve(run, tool, m, out, a):
     v1 = vols(out)
     if v1 is not None and np.all(v1 < 0):
         # one mechanism of its own: the whole sweep is uniformly inverted (layer order vs. sense of rotation)
-        run.fail("mesh.revolve", "tool=revolve celltype=%s axis=%s clause=orientation all-cells-inverted" % (m.cell_type, axis),
+        # (the recorded finding is the increasing-angle call; the documented negative-angle usage has a key of its own)
+        run.fail("mesh.revolve", "tool=revolve celltype=%s axis=%s clause=orientation all-cells-inverted%s" % (m.cell_type, axis, " angles=decreasing" if documented_negative else ""),
                  "revolve(axis=%s): every cell of the result has negative volume for a body at positive radius and "
                  "increasing angles" % axis, unit="revolve:orientation")
     else:
